@@ -420,7 +420,7 @@ Section Descent.
     apply bind_some in H as ([jtj jtr] & Hn & H). injection H as <-. unfold good. cbn.
     destruct (normal_eqs_good _ _ _ _ _ Hn) as (P1 & P2).
     split; [exact P1|]. split; [exact P2|]. split.
-    - apply Rmult_le_pos; [exact Htau|apply vmax_nonneg].
+    - exact Htau.
     - unfold two. cbn. lra.
   Qed.
 
